@@ -41,6 +41,30 @@ fn err_name(e: &AutosarDataError) -> String {
     d.split(|c: char| !(c.is_alphanumeric() || c == '_')).next().unwrap_or("?").to_string()
 }
 
+pub fn warn_kind(e: &AutosarDataError) -> String {
+    match e {
+        AutosarDataError::ParserError { source, .. } => {
+            let d = format!("{source:?}");
+            d.split(|c: char| !(c.is_alphanumeric() || c == '_')).next().unwrap_or("?").to_string()
+        }
+        AutosarDataError::LexerError { source, .. } => {
+            let d = format!("{source:?}");
+            format!("Lexer{}", d.split(|c: char| !(c.is_alphanumeric() || c == '_')).next().unwrap_or("?"))
+        }
+        other => err_name(other),
+    }
+}
+
+pub fn text_hash(s: &str) -> String {
+    // FNV-1a 64: only used to compare two texts for byte equality inside one observation log
+    let mut h: u64 = 0xcbf29ce484222325;
+    for b in s.as_bytes() {
+        h ^= *b as u64;
+        h = h.wrapping_mul(0x100000001b3);
+    }
+    format!("{h:016x}")
+}
+
 fn res_ok(v: usize) -> Value {
     json!({"t": "ok", "v": v})
 }
@@ -185,12 +209,14 @@ impl World {
             Out::File(Err(e)) => res_err(&e),
             Out::Bool(b) => res_ok(b as usize),
             Out::Load(Ok((f, warns))) => {
+                self.register_new();
                 let fid = self.fid_of(&f);
                 json!({"t": "ok", "v": fid, "warn": warns.iter().map(|w| w.to_string()).collect::<Vec<_>>()})
             }
             Out::Load(Err(e)) => json!({"t": "err", "v": err_name(&e), "msg": e.to_string()}),
             Out::Model(Ok(m)) => {
                 self.models.push(m);
+                self.register_new();
                 res_ok(self.models.len())
             }
             Out::Model(Err(e)) => res_err(&e),
@@ -550,12 +576,15 @@ impl World {
                                 json!([d, e.element_name().to_str(), cd])
                             })
                             .collect();
-                        json!({"t": "ok", "els": els, "warn": warns.iter().map(|w| w.to_string()).collect::<Vec<_>>(), "len": text.len()})
+                        // warning kinds: the variant name of the parser / lexer error inside the warning
+                        let kinds: Vec<String> = warns.iter().map(warn_kind).collect();
+                        json!({"t": "ok", "els": els, "warn": warns.iter().map(|w| w.to_string()).collect::<Vec<_>>(), "warnk": kinds,
+                               "len": text.len(), "h": text_hash(&text)})
                     }
-                    Err(e) => json!({"t": "reloaderr", "els": [], "warn": [e.to_string()], "len": text.len()}),
+                    Err(e) => json!({"t": "reloaderr", "els": [], "warn": [e.to_string()], "warnk": [warn_kind(&e)], "len": text.len(), "h": text_hash(&text)}),
                 }
             }
-            Err(e) => json!({"t": "err", "els": [], "warn": [err_name(&e)], "len": 0}),
+            Err(e) => json!({"t": "err", "els": [], "warn": [err_name(&e)], "warnk": [], "len": 0, "h": ""}),
         }
     }
 }
